@@ -1,5 +1,6 @@
 import DriverLib.Envelope
 import NotationCore.Model.Sign
+import NotationCore.Model.Timestamp
 /-! driver handler: signing (C08, C16) -/
 namespace DriverLib
 open Lean NotationCore NotationCore.Base NotationCore.Sign
@@ -23,6 +24,33 @@ def signerOf (j : Json) : E Signer := do
     | some c => do pure (some (← chainInfoOf c))
   pure { isLocal := ← fldBool j "isLocal", keySpec := ks, signs := ← fldBool j "signs", sigLen := ← fldNat j "sigLen", chain }
 
+def resultOfNat (n : Nat) : NotationCore.Result :=
+  if n == Generated.resultOK then .ok
+  else if n == Generated.resultNonRevokable then .nonRevokable
+  else if n == Generated.resultRevoked then .revoked
+  else .unknown     -- any other value is neither OK nor NonRevokable nor Revoked
+
+def tsEnvOf (j : Json) : E Timestamp.Env := do
+  let chain ← match fldOpt j "tsaChain" with
+    | none => pure none
+    | some c => do pure (some (← chainInfoOf c))
+  let validator ← match fldOpt j "validator" with
+    | some (.str "error") => pure Timestamp.ValidatorOutcome.error
+    | some (.str _) => pure Timestamp.ValidatorOutcome.notConfigured
+    | some v => do pure (Timestamp.ValidatorOutcome.results ((← natList v "results").map resultOfNat))
+    | none => pure Timestamp.ValidatorOutcome.notConfigured
+  pure { requestOK := ← fldBool j "requestOK", timestamperOK := ← fldBool j "timestamperOK", tokenOK := ← fldBool j "tokenOK",
+         tsaChain := chain, validator, token := ← fldStr j "token" }
+
+/-- the timestamping configuration of the request: (configured, environment) -/
+def tsConfigOf (j : Json) : E (Bool × Timestamp.Env) := do
+  match fldOpt j "ts" with
+  | some (.str _) => pure (false, default)
+  | some v => match fldOpt v "env" with
+    | some e => do pure (true, ← tsEnvOf e)
+    | none => pure (false, default)
+  | none => pure (false, default)
+
 def reqOf (j : Json) : E Req := do
   let signer ← match fldOpt j "signer" with
     | none => pure none
@@ -30,7 +58,9 @@ def reqOf (j : Json) : E Req := do
   let ts ← match fldOpt j "ts" with
     | some (.str "notConfigured") => pure TsOutcome.notConfigured
     | some (.str "fails") => pure TsOutcome.fails
-    | some v => do pure (TsOutcome.ok (← fldStr v "token"))
+    | some v => match fldOpt v "env" with
+      | some e => do pure (Timestamp.outcome true (← tsEnvOf e))
+      | none => do pure (TsOutcome.ok (← fldStr v "token"))
     | none => pure TsOutcome.notConfigured
   pure { payload := ← fldStr j "payload", payloadLen := ← fldNat j "payloadLen", jwsObject := ← fldBool j "jwsObject",
          cty := ← fldStr j "cty", ctyOK := ← fldBool j "ctyOK", signingTime := ← fldTime j "signingTime", expiry := ← fldTime j "expiry",
@@ -82,6 +112,62 @@ def monitorSign (prop : String) (res : Sign.Result) (isRemote : Bool) (keyMatche
     return none
   | .panic _ => return none
 
+/-- C15 evaluated on what the implementation did -/
+def monitorTs (fmt : Fmt) (r : Req) (configured : Bool) (e : Timestamp.Env) (res : Sign.Result) (impl : Json) : E (Option String) := do
+  if (fldOpt impl "panic").isSome then return some "panic"
+  let iok ← fldBool impl "ok"
+  let due := r.scheme == schemeX509 && configured
+  let contacted ← match fldOpt impl "tsa_contacted" with | some n => n.getNat? | none => pure 0
+  let vcalls ← match fldOpt impl "validator_calls" with | some n => n.getNat? | none => pure 0
+  if !due && contacted != 0 then return some "authority_contacted_though_no_timestamp_is_due"
+  if !due && vcalls != 0 then return some "tsa_revocation_validator_consulted_though_no_timestamp_is_due"
+  if contacted > 1 then return some "authority_contacted_more_than_once"
+  match fldOpt impl "request_imprint_ok" with
+  | some b => if !(← b.getBool?) then return some "request_imprint_is_not_the_digest_of_the_signature_under_the_algorithm's_hash"
+  | none => pure ()
+  match fldOpt impl "validator_chain_ok" with
+  | some b => if !(← b.getBool?) then return some "validator_not_given_the_verified_tsa_chain"
+  | none => pure ()
+  if iok then
+    let tst ← match fldOpt impl "verified" with
+      | some v => match fldOpt v "content" with
+        | some c => fldStr c "tst"
+        | none => pure ""
+      | none => match fldOpt impl "emitted_tst" with
+        | some t => t.getStr?
+        | none => pure ""
+    if !due then
+      if tst != "" then return some "token_embedded_though_no_timestamp_is_due"
+      return none
+    if contacted != 1 then return some "signed_without_contacting_the_authority"
+    match Timestamp.timestamp e with
+    | none =>
+      -- which requirement was not met
+      if !e.timestamperOK then return some "signed_though_the_timestamper_failed"
+      if !e.tokenOK then return some "signed_though_no_granted_parseable_token"
+      match e.tsaChain with
+      | none => return some "signed_though_the_token_does_not_verify_against_the_caller's_roots"
+      | some ci =>
+        if !Chain.accepted (Chain.validateTimestamping ci.sigF ci.sigSelfF ci.certs) then return some "signed_though_the_tsa_chain_fails_timestamping_validation"
+        return some "signed_though_the_tsa_chain_is_not_shown_unrevoked"
+    | some tok =>
+      if tst != tok then return some "embedded_token_is_not_the_authority's"
+      match fldOpt impl "token_imprint_ok" with
+      | some b => if !(← b.getBool?) then return some "token_imprint_does_not_cover_this_signature"
+      | none => return some "token_imprint_not_observed"
+      if e.validator != .notConfigured && vcalls != 1 then return some "validator_supplied_but_not_consulted"
+      return none
+  else
+    if (fldOpt impl "bytes_with_error").isSome then return some "bytes_returned_with_error"
+    if (fldOpt impl "object_shows_after_error").isSome then return some "failed_request_observable_on_the_object"
+    match res with
+    | .err .timestamp _ =>
+      match fldOpt impl "_class" with
+      | some (.str c) => if c != "timestamp" then return some "timestamping_failure_not_reported_as_a_timestamp_error"
+      | _ => pure ()
+    | _ => pure ()
+    return none
+
 /-- in: {fmt, req}; out: {ok, verified:{ok, content}} | {ok:false, class, stage} -/
 def handleSign (prop : String) (j impl : Json) : E Json := do
   let fmt ← match (← fldStr j "fmt") with
@@ -91,12 +177,19 @@ def handleSign (prop : String) (j impl : Json) : E Json := do
   let res := sign fmt r
   let isRemote := match r.signer with | some s => !s.isLocal | none => false
   let kml := match fldOpt (← fld j "req") "keyMatchesLeaf" with | some (.bool b) => b | _ => true
-  let verdict ← monitorSign prop res isRemote kml impl
+  let (configured, tsEnv) ← tsConfigOf (← fld j "req")
+  let verdict ← if prop == "C15" then monitorTs fmt r configured tsEnv res impl else monitorSign prop res isRemote kml impl
+  let tsObs : List (String × Json) :=
+    if (fldOpt (← fld j "req") "ts").isSome && (fldOpt impl "tsa_contacted").isSome then
+      [("tsa_contacted", jnat (Timestamp.contacted fmt r configured tsEnv)),
+       ("validator_calls", jnat (Timestamp.validatorCalls fmt r configured tsEnv)),
+       ("request_imprint_ok", jbool true), ("validator_chain_ok", jbool true), ("token_imprint_ok", jbool true)]
+    else []
   let model := match res with
     | .ok c => jobj ([("ok", jbool true), ("verified", jobj [("ok", jbool true), ("content", contentJson c)]),
                       ("object", jobj [("ok", jbool true), ("content", contentJson c)])] ++
-                     (if isRemote then [("remote_sign_calls", jnat 1), ("handed_bytes_verify", jbool true)] else []))
-    | .err e st => jobj [("ok", jbool false), ("class", jstr (errName' e)), ("stage", jstr (if st == .early then "early" else "late"))]
+                     (if isRemote then [("remote_sign_calls", jnat 1), ("handed_bytes_verify", jbool true)] else []) ++ tsObs)
+    | .err e st => jobj ([("ok", jbool false), ("class", jstr (errName' e)), ("stage", jstr (if st == .early then "early" else "late"))] ++ tsObs)
     | .panic s => jobj [("ok", jbool false), ("panic", jstr s)]
   pure (jobj [("model", model), ("spec", specJson verdict)])
 
